@@ -2336,6 +2336,33 @@ package leveldb
 //@     assert [C07,C08:the-table-removed-is-the-one-the-record-lists] arg0.Type == storage.TypeTable && arg0.Num == at.num
 //@   ensures [C07,C08:every-table-written-is-removed-unless-a-removal-failed] result == nil ==> calls("storage.Storage.Remove") == old(calls("storage.Storage.Remove")) + len(b.rec.addedTables)
 
+// C11: an iterator of a transaction is assembled over the transaction's own buffer and tables at the transaction's
+// sequence number, within the caller's range; a finished transaction hands out none.
+//@ func (*Transaction).NewIterator
+//@   props C11 C02
+//@   safety off
+//@   at before call (*DB).newIterator#1
+//@     assert [C02,C11:a-transactions-iterator-layers-its-own-writes-over-its-start-state] !tr.closed && arg0 == tr.mem && sameslice(arg1, tr.tables) && arg2 == tr.seq && arg3 == slice
+//@   at before call (*memDB).incref#1
+//@     assert [C02,C11:a-finished-transaction-hands-out-no-iterator] !tr.closed
+
+// C03: a snapshot handle registers its sequence number (exactly one registration per handle) and remembers it.
+//@ func (*DB).newSnapshot
+//@   props C03
+//@   safety off
+//@   ensures [C03:a-snapshot-holds-exactly-one-registration] result != nil && result.db == db && !result.released && result.elem != nil && calls("(*DB).acquireSnapshot") == old(calls("(*DB).acquireSnapshot")) + 1
+
+// C18 / C07: shutting the session. The table cache is closed and the manifest writer with its file; afterwards the
+// session holds neither (a second close, or a late commit, finds nil rather than a closed file).
+//@ func (*session).close
+//@   props C18 C07
+//@   safety off
+//@   ensures [C07,C18:the-manifest-is-not-kept] s.manifest == nil && s.manifestWriter == nil
+//@   at before call (*Writer).Close#1
+//@     assert [C07,C18:the-manifest-that-is-closed-is-the-sessions] recv == s.manifest
+//@   at before call io.Closer.Close#1
+//@     assert [C07,C18:the-manifest-file-that-is-closed-is-the-sessions] recv == s.manifestWriter
+
 // C03 / C18 / C07: giving a view back. A snapshot gives its registration back exactly once - the first Release does,
 // any later one does nothing (a second release would un-pin what another snapshot at the same sequence number still
 // needs); an iterator releases its source and its version reference exactly once and a second Release touches nothing.
